@@ -2,75 +2,61 @@ package harness
 
 import (
 	"encoding/json"
-	"net/http/httptest"
 	"unsafe"
 
-	"github.com/zishang520/engine.io/v2/events"
 	"github.com/zishang520/engine.io/v2/types"
-	wt "github.com/zishang520/engine.io/v2/webtransport"
 	"verifrt/vsched"
 )
 
-// WTClient is the client end of an engine-level WebTransport connection. The
-// HTTP/3 session handler (OnWebTransportSession) cannot be driven without a QUIC
-// stack; the harness performs what it does after the bidirectional stream is
-// accepted — wrap the stream in a real webtransport.Conn, read the handshake
-// packet, then call the exported Handshake / MaybeUpgrade — so everything
-// from the Conn downwards and from Handshake upwards is the real code.
+// WTClient is the client end of an engine-level WebTransport connection driven
+// through the real session handler (OnWebTransportSession over a real
+// webtransport-go server, see wtreal.go): only the QUIC/HTTP-3 layers below the
+// handler are fakes.
 type WTClient struct {
-	W      *World
-	Stream *fakeStream
-	Sess   *fakeSession
-	Conn   *types.WebTransportConn
-	Ctx    *types.HttpContext
-	parsed int // bytes of Stream.out already decoded
-	Got    []wtMsg
+	W       *World
+	Stream  *fakeStream
+	Sess    *fakeSession
+	Conn    *types.WebTransportConn
+	Ctx     *types.HttpContext
+	connect func() // real-handler mode: offers the client's stream to the server
+	parsed  int    // bytes of Stream.out already decoded
+	Got     []wtMsg
 }
 
-// DialWT creates the connection objects; nothing is sent yet.
-func (w *World) DialWT(maxPayload int64) *WTClient {
-	fs := newFakeStream(nil)
-	fs.live = true
-	sess := newFakeSession()
-	sess.Req.bound = fs
-	conn := wt.NewConn(sess.S, fs, true, 0, 0, nil, nil, nil)
-	if maxPayload > 0 {
-		conn.SetReadLimit(maxPayload)
+// DialWT starts the real session handler for a new WebTransport connection (see wtreal.go);
+// nothing is sent yet. The read limit is the one the handler installs from the server options.
+func (w *World) DialWT(_ int64) *WTClient {
+	if w.WT == nil {
+		w.WT = NewWTServer()
 	}
-	req := httptest.NewRequest("CONNECT", "/engine.io/?EIO=4&transport=webtransport", nil)
-	req.Proto = "webtransport"
-	ctx := types.NewHttpContext(httptest.NewRecorder(), req)
-	ctx.WebTransport = &types.WebTransportConn{EventEmitter: events.New(), Conn: conn}
-	return &WTClient{W: w, Stream: fs, Sess: sess, Conn: ctx.WebTransport, Ctx: ctx}
+	return w.DialWTHandler(w.WT)
 }
 
-// Handshake runs the server side of a fresh WebTransport session (what the
-// session handler does for the handshake packet "0") in a thread of its own.
+// Handshake: the client opens its stream and sends the handshake packet of a fresh session
+// (in the calling thread when that is a scheduled one, else in a thread of its own).
 func (c *WTClient) Handshake() {
-	vsched.GoNamed("wt-handshake", func() {
-		c.W.BeginAction()
-		c.Ctx.Query().Set("EIO", "4")
-		c.W.Srv.Handshake("webtransport", c.Ctx)
-	})
+	c.opening(func() {
+		c.Connect()
+		c.SendRaw(wtEncode(wtMsg{false, []byte("0")}, 0))
+	}, "wt-open")
 }
 
-// Upgrade runs the server side of an upgrade candidate for the session sid: the
-// same gate as the session handler (known, not upgrading, not upgraded), then MaybeUpgrade.
+// Upgrade: the client opens its stream and announces itself as a candidate for the session sid.
 func (c *WTClient) Upgrade(sid string) {
-	vsched.GoNamed("wt-candidate", func() {
+	c.opening(func() {
+		c.Connect()
+		c.SendRaw(wtEncode(wtMsg{false, []byte(`0{"sid":"` + sid + `"}`)}, 0))
+	}, "wt-candidate")
+}
+
+func (c *WTClient) opening(do func(), name string) {
+	if vsched.Scheduled() {
+		do()
+		return
+	}
+	vsched.GoNamed(name, func() {
 		c.W.BeginAction()
-		client, ok := c.W.Srv.Clients().Load(sid)
-		if !ok || client.Upgrading() || client.Upgraded() {
-			c.Conn.CloseWithError(0, "")
-			return
-		}
-		tr, err := c.W.Srv.CreateTransport("webtransport", c.Ctx)
-		if err != nil {
-			c.Conn.CloseWithError(0, "")
-			return
-		}
-		tr.SetPerMessageDeflate(c.W.Srv.Opts().PerMessageDeflate())
-		client.MaybeUpgrade(tr)
+		do()
 	})
 }
 
@@ -112,3 +98,10 @@ func (c *WTClient) Closed() bool { return c.Sess.Closed() }
 func (c *WTClient) obj() uintptr { return uintptr(unsafe.Pointer(c.Stream)) }
 
 var _ = json.Marshal
+
+// Connect opens the client's bidirectional stream (real-handler mode).
+func (c *WTClient) Connect() {
+	if c.connect != nil {
+		c.connect()
+	}
+}
